@@ -50,6 +50,8 @@ pub enum WOp {
     /// one `write` call of n bytes (followed by more `write` calls if it was short)
     Write(usize),
     WriteAll(usize),
+    /// one `write_vectored` call over slices of these sizes (possibly none, possibly all empty), the rest written with `write_all`
+    WriteVectored(Vec<usize>),
     Flush,
     /// the body's data source fails here: `Body::write` returns an error (nothing after it is written)
     Fail,
@@ -68,6 +70,7 @@ impl Program {
             .iter()
             .map(|o| match o {
                 WOp::Write(n) | WOp::WriteAll(n) => *n,
+                WOp::WriteVectored(v) => v.iter().sum(),
                 WOp::Flush | WOp::Fail => 0,
             })
             .sum()
@@ -116,6 +119,21 @@ impl Body for ProgBody {
                 WOp::WriteAll(n) => {
                     w.write_all(&self.data[pos..pos + n])?;
                     pos += n;
+                }
+                WOp::WriteVectored(sizes) => {
+                    let total: usize = sizes.iter().sum();
+                    let mut at = pos;
+                    let slices: Vec<std::io::IoSlice> = sizes
+                        .iter()
+                        .map(|n| {
+                            let s = std::io::IoSlice::new(&self.data[at..at + n]);
+                            at += n;
+                            s
+                        })
+                        .collect();
+                    let k = w.write_vectored(&slices)?;
+                    w.write_all(&self.data[pos + k.min(total)..pos + total])?;
+                    pos += total;
                 }
                 WOp::Flush => w.flush()?,
                 WOp::Fail => return Err(std::io::Error::new(std::io::ErrorKind::Other, "body source failed")),
@@ -206,6 +224,7 @@ pub fn wop() -> BoxedStrategy<WOp> {
         5 => len.clone().prop_map(WOp::Write),
         3 => len.prop_map(WOp::WriteAll),
         1 => Just(WOp::Flush),
+        2 => proptest::collection::vec(prop_oneof![2 => Just(0usize), 3 => 1usize..60, 1 => Just(9000usize)], 0..4).prop_map(WOp::WriteVectored),
     ]
     .boxed()
 }
@@ -602,7 +621,7 @@ non-trivial = a body or >= 1 param or a custom program with >= 2 writes";
 
     fn strategy(_tier: Tier) -> BoxedStrategy<Case> {
         (
-            prop_oneof![4 => (0..STD_METHODS.len()).prop_map(|i| STD_METHODS[i].to_string()), 1 => "[A-Z][A-Z!#$%&'*+.^_`|~-]{0,8}".prop_map(|s| s)],
+            prop_oneof![4 => (0..STD_METHODS.len()).prop_map(|i| STD_METHODS[i].to_string()), 1 => "[A-Z][A-Z!#$%&'*+.^_`|~-]{0,8}".prop_map(|s| s), 1 => "[A-Za-z][A-Za-z0-9!#$%&'*+.^_`|~-]{0,8}".prop_map(|s| s), 1 => prop_oneof![Just("get"), Just("Post"), Just("m-search"), Just("head")].prop_map(|s| s.to_string())],
             urlgen::url_spec(true, false),
             proptest::collection::vec(build_op(), 0..7),
             body_spec(),
@@ -824,6 +843,8 @@ non-trivial = a body or >= 1 param or a custom program with >= 2 writes";
         });
         if let BodySpec::Custom(p) = &case.body {
             ctx.label_if(p.ops.iter().any(|o| matches!(o, WOp::Write(0))), "custom:zero-length-write");
+            ctx.label_if(p.ops.iter().any(|o| matches!(o, WOp::WriteVectored(v) if v.iter().all(|n| *n == 0))), "custom:empty-vectored-write");
+            ctx.label_if(p.ops.iter().any(|o| matches!(o, WOp::WriteVectored(v) if v.iter().any(|n| *n > 0))), "custom:vectored-write");
             ctx.label_if(p.ops.iter().any(|o| matches!(o, WOp::Write(n) | WOp::WriteAll(n) if *n > 8192)), "custom:write>8KiB");
             ctx.label_if(p.chunked, "custom:chunked");
         }
